@@ -5,6 +5,7 @@ over prefix-related name sets and hostile values; tap counts engine calls of und
 
 from __future__ import annotations
 
+import datetime
 import decimal
 import random
 from typing import Any
@@ -49,6 +50,13 @@ VALUES = [
     ("str-comment", "'a--b'", "a--b"),
     ("str-unicode", "'héllo ✓'", "héllo ✓"),
     ("expr-add", "1 + 2", 3),
+    # the value of a scalar subquery, of every type a query can give
+    ("subq-dec", "(SELECT 9.50)", decimal.Decimal("9.50")),
+    ("subq-max-dec", "(SELECT MAX(P) FROM PRICES)", decimal.Decimal("9.50")),
+    ("subq-date", "(SELECT MAX(D) FROM PRICES)", datetime.date(2024, 1, 2)),
+    ("subq-ts", "(SELECT MAX(TS) FROM PRICES)", datetime.datetime(2024, 1, 2, 3, 4, 5)),
+    ("subq-count", "(SELECT COUNT(*) FROM PRICES)", 2),
+    ("subq-str", "(SELECT 'x''y')", "x'y"),
 ]
 
 POSITIONS = ["bare", "alias", "where", "subquery", "arith", "insert", "twice", "minus", "negate", "concat"]
@@ -103,6 +111,9 @@ _state: dict[str, Any] = {}
 
 def setup_worker(env: core.Env) -> None:
     _state["fs"] = core.new_fs()
+    cur = _state["fs"].connect("db1", "s1").cursor()
+    cur.execute("CREATE TABLE PRICES (P NUMBER(10,2), D DATE, TS TIMESTAMP_NTZ)")
+    cur.execute("INSERT INTO PRICES VALUES (9.50, '2024-01-02', '2024-01-02 03:04:05'), (1.25, '2023-01-01', '2023-01-01 00:00:00')")
 
 
 def _fresh(fs: Any) -> tuple[list, list]:
